@@ -7194,6 +7194,96 @@ let rec wf_md_from pe_ok front_ok cfg_ok first = function
 let wf_md pe_ok front_ok cfg_ok d =
   wf_md_from pe_ok front_ok cfg_ok true d
 
+(** val ends_with_lf : n list -> bool **)
+
+let ends_with_lf line =
+  match rev line with
+  | [] -> false
+  | n0 :: _ ->
+    (match n0 with
+     | N0 -> false
+     | Npos p ->
+       (match p with
+        | XO p0 ->
+          (match p0 with
+           | XI p1 ->
+             (match p1 with
+              | XO p2 -> (match p2 with
+                          | XH -> true
+                          | _ -> false)
+              | _ -> false)
+           | _ -> false)
+        | _ -> false))
+
+(** val s_EQUAL : n list **)
+
+let s_EQUAL =
+  (Npos (XO (XO (XO (XO (XO XH)))))) :: ((Npos (XO (XO (XO (XI (XO
+    XH)))))) :: ((Npos (XI (XO (XI (XO (XO (XI XH))))))) :: ((Npos (XI (XO
+    (XO (XO (XI (XI XH))))))) :: ((Npos (XI (XO (XI (XO (XI (XI
+    XH))))))) :: ((Npos (XI (XO (XO (XO (XO (XI XH))))))) :: ((Npos (XO (XO
+    (XI (XI (XO (XI XH))))))) :: ((Npos (XI (XO (XO (XI (XO
+    XH)))))) :: [])))))))
+
+(** val needs_kind : n list -> bool **)
+
+let needs_kind content =
+  match rev content with
+  | [] -> false
+  | n0 :: _ ->
+    (match n0 with
+     | N0 -> false
+     | Npos p ->
+       (match p with
+        | XI p0 ->
+          (match p0 with
+           | XO p1 ->
+             (match p1 with
+              | XI p2 ->
+                (match p2 with
+                 | XI p3 ->
+                   (match p3 with
+                    | XI p4 ->
+                      (match p4 with
+                       | XO p5 -> (match p5 with
+                                   | XH -> true
+                                   | _ -> false)
+                       | _ -> false)
+                    | _ -> false)
+                 | _ -> false)
+              | XO p2 ->
+                (match p2 with
+                 | XI p3 ->
+                   (match p3 with
+                    | XO p4 -> (match p4 with
+                                | XH -> true
+                                | _ -> false)
+                    | _ -> false)
+                 | _ -> false)
+              | XH -> false)
+           | _ -> false)
+        | _ -> false))
+
+(** val expectation_line : mode -> n list -> text **)
+
+let expectation_line m line =
+  let content = trim_newlines line in
+  if has_unprintable m content
+  then app (escaped_printable m content) s_ESCAPED
+  else let t = text_of content in
+       if negb (ends_with_lf line)
+       then app t s_NOEOL
+       else if needs_kind content then app t s_EQUAL else t
+
+(** val rule_matches : rule -> n list -> bool **)
+
+let rule_matches r line =
+  match r with
+  | REqual t -> m_equal (utf8_encode t) line
+  | RNoEol t -> m_noeol (utf8_encode t) line
+  | REscaped (_, b) -> m_escaped b line
+  | _ -> false
+
 (** val make_exp : bool -> bool -> (nat -> bool) -> nat exp **)
 
 let make_exp o m f =
